@@ -44,6 +44,41 @@ example : (List.range 16).filter isFinished = [stDead, stError, stUser0, stUser1
 example : checkCanResume { status := stPending, mask := 0, ctl := .run (.ret (.lit .nil)) } false = none := by decide
 example : checkCanResume { status := stNew, mask := 0, ctl := .run (.ret (.lit .nil)) } true = none := by decide
 
+/-! ## a task of the event loop reached through a child link (finding 6) -/
+
+/-- ★ (patched tree: `cancelWalkRefusesRoot`) `(cancel f a)` whose walk to the innermost child meets a fiber with
+    JANET_FIBER_FLAG_ROOT — a task of the event loop linked as a child by `propagate`, or by `ev/go` on a fiber that already
+    was somebody's child — is refused before anything is marked: the only write is the caller's own block / child link
+    (`fiber->child = child` in JOP_CANCEL), no fiber gets a pending signal, no status changes, and the refusal text goes
+    through the mask test of `g` like any signal of `g` (`unwind`).  On the tree before the fix the flag is `false` (the
+    walk marked the task — in C: overwrote its ROOT / SUSPENDED scheduler bits — and `janet_continue` then ran it on the
+    canceller's C stack); corpus/C05/cancel-chain-root-task.janet is that execution on the implementation. -/
+theorem cancel_root_chain_refused_unmarked (s : State) (p : FId) (fp : Fiber) (rest : List FId) (l : Nat) (k : Tm) (f a : Atom)
+    (g : FId) (fg : Fiber) (hf : evalAtom s fp.env f = .fib g) (hg : s.fiber? g = some fg) (hok : checkCanResume fg true = none)
+    (hflag : cancelWalkRefusesRoot = true)
+    (hroot : walkMeetsRoot (s.setFiber p { fp with ctl := .wait (.bindK l k false), child := some g })
+               (3 * chainFuel (s.setFiber p { fp with ctl := .wait (.bindK l k false), child := some g })) g g 0 = true) :
+    execPrim s p fp rest l (.cancel f a) k =
+      unwind (s.setFiber p { fp with ctl := .wait (.bindK l k false), child := some g }) (p :: rest) g sigError cancelRootMsg := by
+  have hr : cancelRefusedRoot (s.setFiber p { fp with ctl := .wait (.bindK l k false), child := some g }) g = true := by
+    unfold cancelRefusedRoot
+    rw [hflag, hroot]; rfl
+  simp only [execPrim, hf, hg, hok]
+  rw [if_pos hr]
+
+/-- … and the walk itself: a root fiber below `g` is found through any number of suspended non-root links; a running
+    (alive) descendant ends the walk first, as in the marking walk.  Non-vacuity: fiber 1 propagated from the suspended
+    task 0 (`child := some 0`), fiber 2 was suspended by 1's signal; the walks from 2 and from 1 meet the task, the walk from
+    the task itself (the event loop's own `ev/cancel`) does not refuse it. -/
+example :
+    let t : Fiber := { status := stUser9, mask := 0, ctl := .wait (.bindK 0 (.ret (.lit .nil)) false), root := true }
+    let w : Fiber := { status := stUser9, mask := 0, ctl := .wait (.bindK 0 (.ret (.lit .nil)) false), child := some 0 }
+    let o : Fiber := { status := stUser9, mask := 0, ctl := .wait (.bindK 0 (.ret (.lit .nil)) false), child := some 1 }
+    let s : State := { fibers := [t, w, o] }
+    walkMeetsRoot s (3 * chainFuel s) 2 2 0 = true ∧ walkMeetsRoot s (3 * chainFuel s) 1 1 0 = true ∧
+    walkMeetsRoot s (3 * chainFuel s) 0 0 0 = false ∧
+    walkMeetsRoot { fibers := [{ t with status := stAlive }, w, o] } 15 2 2 0 = false := by decide
+
 /-! ## values -/
 
 /-- ★ Values pass unchanged (downwards, through any depth of child chaining): `janet_continue_no_check f v` either
